@@ -61,7 +61,12 @@ def setup():
     impl.load()
 
 
+TIER = "quick"
+
+
 def plan(tier, seed):
+    global TIER
+    TIER = tier
     L = 5 if tier == "quick" else 6
     shards = [("automata", L), ("tokens", "N"), ("tokens", "S"), ("tokens", "E"), ("groups", "N"), ("groups", "S"), ("groups", "E"), ("nearmiss",)]
     return dict(shards=shards, bounds=dict(alphabet_size=len(A.SIGMA), conformance_string_length=L, string_length="unbounded (automata)"), budget_s=900)
@@ -244,7 +249,7 @@ def _groups(ctx, kind):
     sync = ("0 = TS 4", "0 = B 120000", "10 = B 60000", "20 = B 240000")
     mkline = dict(N=lambda t, i: "%d = N %d %d" % (t, i % 5, i), S=lambda t, i: "%d = S 2 %d" % (t, i + 1), E=lambda t, i: "%d = E ev%d" % (t, i))[kind]
     T = (0, 1, 5, 9, 10, 11, 15, 19, 20, 21, 25)
-    for n in (2, 3):
+    for n in (2, 3) if TIER != "thorough" else (2, 3, 4):
         for ticks in itertools.combinations(T, n):
             body = [mkline(t, i) for i, t in enumerate(ticks)]
             check_e2e(ctx, body, "%d %s lines at ticks %r" % (n, kind, ticks), sync=sync)
